@@ -42,7 +42,7 @@ META = {
                     "cell data reaches files only through Exporter._write"],
     "technique": "writer/reader table extraction with block-local symbolic resolution; permutation direction (gather vs scatter) matching",
 }
-MIN_INSTANCES = {"R1": 7, "R2": 9, "R3": 6, "R4": 3, "R5": 6, "R6": 9}
+MIN_INSTANCES = {"R1": 7, "R2": 9, "R3": 6, "R4": 3, "R5": 6, "R6": 9, "R7": 1}
 
 
 # ----------------------------------------------------------------------------------------
@@ -169,8 +169,60 @@ def run(ctx: Ctx) -> None:
     _r4_vector_format(ctx, exp, F)
     _r5_time_information(ctx)
     _r6_pvd(ctx, exp, F)
+    _r7_latest_step(ctx, exp, F)
     if ctx.tier == "thorough":
         _notes(ctx, exp, F)
+
+
+# ---------------- R7 (added by the coordinator): the restored step is the numerically latest one -----
+
+def _r7_latest_step(ctx: Ctx, exp, F) -> None:
+    """import_from_pvd collects the `timestep` attribute strings of all DataSet entries and restores the files
+    of the *latest* one.  The strings must be ordered as numbers: ordering them as strings puts "10.0" before
+    "9.0", so with more than ten steps a stale state is restored.  Accepted: max(..., key=float),
+    sorted(..., key=float)[-1], or any ordering applied to values converted with float() first."""
+    fn = F["import_from_pvd"]
+    q = "Exporter.import_from_pvd"
+    # the list of strings: appended from data["timestep"]
+    apps = [c for c in ast.walk(fn) if isinstance(c, ast.Call) and call_name(c) == "append" and c.args
+            and "timestep" in u(c.args[0])]
+    if not apps:
+        raise AnchorError(f"{q}: collection of the timestep attributes not found")
+    lst = u(apps[0].func.value)  # type: ignore[attr-defined]
+    converted = any(isinstance(n, ast.Call) and isinstance(n.func, ast.Name) and n.func.id == "float" for n in ast.walk(apps[0].args[0]))
+    # the variable later compared with the timestep attribute
+    cmps = [n for n in ast.walk(fn) if isinstance(n, ast.Compare) and len(n.ops) == 1 and isinstance(n.ops[0], ast.Eq)
+            and any(isinstance(x, ast.Name) for x in (n.left, n.comparators[0]))]
+    sel = None
+    for c in cmps:
+        for x in (c.left, c.comparators[0]):
+            if isinstance(x, ast.Name):
+                a = [st for st in stmts_local(fn) if isinstance(st, ast.Assign) and len(st.targets) == 1 and u(st.targets[0]) == x.id]
+                if len(a) == 1 and lst in u(inline_locals(fn, a[0].value, stop=[lst])):
+                    sel = a[0]
+    if sel is None:
+        raise Undecided(f"{q}: cannot find how the restart time step is selected from `{lst}`")
+    e = inline_locals(fn, sel.value, stop=[lst])
+    txt = u(e)
+    numeric = converted
+    order_calls = [n for n in ast.walk(e) if isinstance(n, ast.Call) and call_name(n) in ("max", "min", "sorted", "unique", "sort", "argsort", "argmax")]
+    if not order_calls:
+        raise Undecided(f"{q}: selection `{txt}` uses no recognised ordering")
+    for oc in order_calls:
+        k = kwarg(oc, "key")
+        if k is not None and u(k) == "float":
+            numeric = True
+        if any(isinstance(n, ast.Call) and isinstance(n.func, ast.Name) and n.func.id == "float" for a_ in oc.args for n in ast.walk(a_)):
+            numeric = True
+        if any(isinstance(n, ast.Call) and call_name(n) in ("astype", "asarray", "array") and "float" in u(n) for a_ in oc.args for n in ast.walk(a_)):
+            numeric = True
+    latest = any(call_name(oc) in ("max", "argmax") for oc in order_calls) or txt.rstrip().endswith("[-1]")
+    ctx.check("R7", numeric and latest, exp, q, sel,
+              f"the restart time step is selected by `{txt}`: the time steps are strings and must be ordered as numbers "
+              f"(lexicographically '10.0' < '9.0': with steps 0..10 step 9 is restored)" if not numeric else
+              f"the selection `{txt}` does not pick the latest step", construct=f"{q}: selection of the latest time step",
+              facts={"selection": txt, "numeric_order": numeric})
+    ctx.sample({"rule": "R7", "selection": txt})
 
 
 # ---------------- geometry tables ---------------------------------------------------------------
@@ -963,6 +1015,8 @@ _FIX = ("                    grouped_value = np.concatenate(\n                  
         "                    value = np.empty_like(grouped_value)\n                    value[cell_ids] = grouped_value\n")
 
 MUTANTS = [
+    _m("revert-fix-latest-step-lexicographic", "restart_timestep_str = max(timesteps, key=float)", "restart_timestep_str = np.unique(timesteps)[-1]", "R7", control=True),
+    _m("latest-step-is-first", "restart_timestep_str = max(timesteps, key=float)", "restart_timestep_str = min(timesteps, key=float)", "R7"),
     _m("revert-fix-reader-no-scatter", _FIX,
        "                    value = np.concatenate(tuple(vtu_data.cell_data[key]), axis=0)\n", "R1", control=True),
     _m("reader-gathers-instead-of-scatter", "                    value = np.empty_like(grouped_value)\n                    value[cell_ids] = grouped_value\n",
